@@ -214,8 +214,8 @@ var neverPatterns = []string{`Â§(\d+)`, `Â¤+`, `~(\w+)~`, `#(\d+)#`, `\$\$x`, `â
 
 // emptyPatterns can match the empty string at an operand start; an empty match has always meant "no match"
 var emptyPatterns = []string{`Q*`, `(?:#\d+)?`, `Â§?`, `Â¤{0,3}`, `\s*`, `(â˜†\d+)?`, `(?:)`, `~*(\d*)~*Z*`}
-var midPatterns = []string{`=\s*\S`, `[,;]\s*\S?`, `[*/%<>|?:]\s*\d*`, `\)\s*`, `\]`, `\}`, `\.\.`, `!=`}
-var sometimesPatterns = []string{`E(\d+)`, `(\d+)!`, `x(\d*)`, `[gh]\d`, `'a'`, `\d+\.\d+`, `true`, `null`, `\[\s*\]`, `-\s*\d+`, `\d+d`, `åŠ›é‡`, `(\d+)X(\d+)`, `[a-z]+\(`, `\d{2,}`, `&\w+`, "`"}
+var midPatterns = []string{`Â¤(\d+)|\)(\d*)`, `Â§+|\]\s*|;\s*(\d*)`, `â˜†|,\s*`, `Â¤|[a-z]+\(`, `=\s*\S`, `[,;]\s*\S?`, `[*/%<>|?:]\s*\d*`, `\)\s*`, `\]`, `\}`, `\.\.`, `!=`}
+var sometimesPatterns = []string{`E(\d+)|(\d+)E`, `E(\d+)`, `(\d+)!`, `x(\d*)`, `[gh]\d`, `'a'`, `\d+\.\d+`, `true`, `null`, `\[\s*\]`, `-\s*\d+`, `\d+d`, `åŠ›é‡`, `(\d+)X(\d+)`, `[a-z]+\(`, `\d{2,}`, `&\w+`, "`"}
 
 // shadowTemplates: a name that holds null in the scope it is read in but is defined further out (an enclosing
 // scope, the host's variables, the built-ins): the lookup continues outwards, with and without hooks.
@@ -231,6 +231,11 @@ var shadowTemplates = []string{
 	"{n} = {v}; func sf7({n}) { if true { {n} = null }; [{n}, {n}] }; {r} = sf7(1)",
 	"&{n} = {v}; func sf8({n}) { {n} }; {r} = sf8(null)",
 	"{n} = {v}; func sf9({n}) { i = 0; while i < 2 { i = i + 1 }; {n} }; {r} = sf9(null)",
+	// a computed value whose evaluation yields another computed value: read once, it stays a computed value
+	"&cb = {v}; &ca = &cb; {r} = ca",
+	"&ca = (&cb = 3d1); {r} = ca; ca",
+	"&cb = {v}; &ca = &cb; {r} = [ca, &ca]; ca",
+	"&cb = 2d1; func sf10() { &cb }; &ca = sf10(); {r} = ca",
 }
 
 func drawShadow(t *rapid.T) string {
